@@ -339,6 +339,30 @@ func (r *Run) loopHead(fr *Frame, li *loopInfo, st *State, reach Term) (Term, bo
 			}
 		}
 	}
+	if ls != nil && ls.HasCarried && !r.discover {
+		// structural obligation: which locals carry a value around the back edge
+		var bad []string
+		allowed := map[string]bool{}
+		for _, n := range ls.Carried {
+			allowed[n] = true
+		}
+		for _, n := range loopCarriedLocals(li) {
+			if !allowed[n] {
+				bad = append(bad, n)
+			}
+		}
+		goal := tTrue
+		text := "only " + strings.Join(ls.Carried, ", ") + " carry a value from one iteration of the loop to a later one"
+		if len(bad) > 0 {
+			goal = tFalse
+			text += " (also carried: " + strings.Join(bad, ", ") + ")"
+		}
+		props := ls.CarriedProps
+		if len(props) == 0 {
+			props = r.funcProps(fr)
+		}
+		r.oblige(fr, "carried", "", fmt.Sprintf("%scarried#L%d", r.inlinePrefix(fr), li.ordinal), tTrue, goal, props, li.header.Instrs[0].Pos(), text)
+	}
 	// 2. havoc everything the loop may write
 	r.havocLoop(fr, li, st)
 	// 3. assume the invariant
@@ -1722,4 +1746,74 @@ func (r *Run) ghostTargetComps(lhs Expr, ws *writeSet, pkgShort string) {
 	default:
 		ws.all = true
 	}
+}
+
+// loopCarriedLocals: names of the local variables (Allocs accessed directly by loads and stores) that are stored in the
+// loop body and whose value can reach a load in a LATER iteration, i.e. that are live at the loop header along paths
+// inside the body (upward-exposed uses) and written inside the body.
+func loopCarriedLocals(li *loopInfo) []string {
+	type set map[*ssa.Alloc]bool
+	use := map[*ssa.BasicBlock]set{}
+	def := map[*ssa.BasicBlock]set{}
+	stored := set{}
+	for b := range li.body {
+		u, d := set{}, set{}
+		for _, ins := range b.Instrs {
+			switch x := ins.(type) {
+			case *ssa.UnOp:
+				if x.Op == token.MUL {
+					if a, ok := x.X.(*ssa.Alloc); ok && !d[a] {
+						u[a] = true
+					}
+				}
+			case *ssa.Store:
+				if a, ok := x.Addr.(*ssa.Alloc); ok {
+					d[a] = true
+					stored[a] = true
+				}
+			}
+		}
+		use[b], def[b] = u, d
+	}
+	liveIn := map[*ssa.BasicBlock]set{}
+	for b := range li.body {
+		liveIn[b] = set{}
+	}
+	for changed := true; changed; {
+		changed = false
+		for b := range li.body {
+			out := set{}
+			for _, s := range b.Succs {
+				if !li.body[s] || s == li.header {
+					continue // leaving the loop, or the back edge: one iteration only
+				}
+				for a := range liveIn[s] {
+					out[a] = true
+				}
+			}
+			in := liveIn[b]
+			for a := range use[b] {
+				if !in[a] {
+					in[a] = true
+					changed = true
+				}
+			}
+			for a := range out {
+				if !def[b][a] && !in[a] {
+					in[a] = true
+					changed = true
+				}
+			}
+		}
+	}
+	seen := map[string]bool{}
+	var names []string
+	for a := range liveIn[li.header] {
+		if stored[a] && a.Comment != "" && !seen[a.Comment] {
+			seen[a.Comment] = true
+			names = append(names, a.Comment)
+		}
+	}
+	sort.Strings(names)
+	return names
 }
